@@ -23,6 +23,16 @@ Outputs are compared after dropping the command-line header and the citation com
 interactions as multisets per section, `nrexcl`, and accept/reject.
 The Lean model (Model/MapToMol.lean, tied to the code by C01's correspondence) is asked the same question
 for every transformed input; its invariance is what the theorems of Properties/C13.lean prove.
+
+links-relabel stream: force fields of the C02 generator (all order tokens, name choices, vetoes, dangling .itp
+interactions) through the real MapToMolecule + ApplyLinks, on a residue graph and on its relabelled / re-inserted /
+edge-reversed twin; order-dependent inputs (VF2 order among matches of one link, C02's filter) are skipped.
+
+load_library streams (Model/LoadLibrary.lean; suffix -> parser tables and the file loop are translated from the
+source, harness/tables/c13_library.py): `get_parser` exhaustively over file-name shapes x library/user x both
+tables; `read_options_from_files` with recording stand-ins (which files, which parser, which order, IOError);
+the real `load_ff_library` with DATA_PATH pointed at generated library directories (which definition of a name
+the force field keeps; shuffled files / libraries must not matter when no two files define the same name).
 """
 import json
 import os
@@ -380,6 +390,270 @@ def run_batch(ctx, specs, findings):
         pos += k
 
 
+# ------------------------------------------------------------------------------------------------ load_library
+
+LIB_NAMES = ["a.rtp", "a.ff", "a.itp", "a.bib", "a.bld", "a.txt", "a", "a.FF", "a.ff.bak", "a.gro", "a.itp.ff", ".ff",
+             "a.", "b.bld.ff", "README"]
+
+
+def _choice_of_real(path, table, is_lib):
+    from polyply.src import load_library
+    try:
+        parser = load_library.get_parser(path, table, is_lib)
+    except IOError:
+        return "IOError"
+    return dict(parser=parser.__name__) if parser else "skip"
+
+
+def _choice_of_model(ans):
+    choice = ans.get("choice")
+    return "skip" if choice in ("skip", "skip-warn") else choice      # a warning is a log line: not pinned
+
+
+def run_library_get_parser(ctx):
+    """EXHAUSTIVE: `get_parser` on every file-name shape x library/user x both parser tables"""
+    from polyply.src import load_library
+    tables = dict(ff=load_library.FORCE_FIELD_PARSERS, bld=load_library.BUILD_FILE_PARSERS)
+    combos = [(tname, name, is_lib) for tname in tables for name in LIB_NAMES for is_lib in (False, True)]
+    reqs, impl = [], []
+    for tname, name, is_lib in combos:
+        path = pathlib.Path("/nowhere") / name
+        reqs.append(dict(op="getparser", table=tname, ext=path.suffix[1:], islib=is_lib))
+        impl.append(_choice_of_real(path, tables[tname], is_lib))
+    answers = ctx.driver.ask(reqs)
+    model = [_choice_of_model(a) for a in answers]
+    bad = [(c, i, m) for c, i, m in zip(combos, impl, model) if i != m][:5]
+    ctx.correspond("library:get_parser", impl, model, dict(kind="library", stream="get_parser", first_differences=bad))
+    ctx.tally(get_parser_exhaustive=len(combos))
+    ctx.case("library:get_parser", kind="library")
+
+
+def _files_json(paths):
+    return [dict(path=str(p), suffix=p.suffix) for p in paths]
+
+
+def run_library_read_options(ctx, count):
+    """`read_options_from_files` with recording stand-ins for the parsers (same keys as the real tables): which
+    files are parsed, by which parser, in which order; IOError for a user file without parser"""
+    from polyply.src import load_library
+    rng = ctx.rng
+    tables = dict(ff=load_library.FORCE_FIELD_PARSERS, bld=load_library.BUILD_FILE_PARSERS)
+    reqs, todo = [], []
+    with tempfile.TemporaryDirectory() as tmp:
+        root = pathlib.Path(tmp)
+        (root / "lib").mkdir()
+        (root / "user").mkdir()
+        pool = {}
+        for group in ("lib", "user"):
+            pool[group] = []
+            for idx, name in enumerate(LIB_NAMES):
+                path = root / group / ("%d%s" % (idx, name) if not name.startswith(".") else name)
+                path.write_text("; %s\n" % path)
+                pool[group].append(path)
+        for idx in range(count):
+            tname = "ff" if idx % 4 else "bld"
+            readable = [p for p in pool["user"] if p.suffix[1:] in tables[tname]]
+            lib = rng.sample(pool["lib"], rng.randint(0, 5))
+            user = rng.sample(readable, rng.randint(0, min(3, len(readable))))
+            roll = rng.random()
+            if roll < 0.25:
+                user.insert(rng.randint(0, len(user)), rng.choice([p for p in pool["user"] if p not in readable]))
+            elif roll < 0.35 and lib:
+                user.append(rng.choice(lib))       # a path given twice: `path in lib_files` makes it a library file
+            seen = []
+
+            def recorder(name):
+                def parse(lines, storage, _name=name):
+                    # every generated file starts with a comment line holding its own path
+                    seen.append([_name, "".join(lines).splitlines()[0][2:]])
+                return parse
+            stand_ins = {ext: recorder(func.__name__) for ext, func in tables[tname].items()}
+            try:
+                load_library.read_options_from_files([list(lib), list(user)], object(), stand_ins)
+                impl = dict(status="ok", calls=seen)
+            except IOError:
+                impl = dict(status="IOError")
+            replay = dict(kind="library", stream="read_options", table=tname, lib=[p.name for p in lib], user=[p.name for p in user])
+            reqs.append(dict(op="readoptions", table=tname, lib=_files_json(lib), user=_files_json(user)))
+            todo.append((impl, replay, len(lib), len(user)))
+        answers = ctx.driver.ask(reqs) if reqs else []
+    for (impl, replay, nlib, nuser), ans in zip(todo, answers):
+        model = dict(status=ans.get("status"), calls=ans.get("calls")) if ans.get("status") == "ok" else dict(status=ans.get("status"))
+        ctx.correspond("library:read_options", impl, model, replay)
+        ctx.traces += 1
+        ctx.case(("library:read_options", json.dumps(replay, sort_keys=True)) if nlib + nuser >= 2 else None, kind="library",
+                 library_status=impl["status"])
+
+
+def _ff_text(blocks):
+    """blocks: [(name, tag)] -> .ff text; the tag is the atom type of the single atom (tells definitions apart)"""
+    out = []
+    for name, tag in blocks:
+        out += ["[ moleculetype ]", "%s 1" % name, "[ atoms ]", "1 %s 1 %s BB 1 0.0 45.0" % (tag, name)]
+    return "\n".join(out) + "\n"
+
+
+def run_library_load_ff(ctx, count):
+    """the real `load_ff_library` with the real parsers on generated library directories (DATA_PATH is pointed at
+    a temporary directory inside this process) and extra files: which definition of a block name the force
+    field keeps (reading order: user files, then libraries in the given order), and — the statement of C13 —
+    that shuffling the extra files / the libraries changes nothing when no two files define the same name"""
+    from polyply.src import load_library
+    rng = ctx.rng
+    names = ["PEO", "PS", "PMA", "P3HT", "PVA", "PE"]
+    reqs, todo = [], []
+    saved = load_library.DATA_PATH
+    try:
+        for idx in range(count):
+            with tempfile.TemporaryDirectory() as tmp:
+                root = pathlib.Path(tmp)
+                load_library.DATA_PATH = str(root)
+                clash = idx % 3 == 0
+                free = list(names)
+                rng.shuffle(free)
+                tagno = [0]
+
+                def blocks_for(k):
+                    out = []
+                    for _ in range(k):
+                        name = rng.choice(names) if clash else (free.pop() if free else None)
+                        if name is None or name in [n for n, _t in out]:
+                            continue
+                        tagno[0] += 1
+                        out.append((name, "T%d" % tagno[0]))
+                    return out
+                defs, libnames, extra = {}, [], []
+                for lib in rng.sample(["libA", "libB", "libC"], rng.randint(0, 2)):
+                    (root / lib).mkdir()
+                    libnames.append(lib)
+                    taken = set()
+                    for fname in rng.sample(["x.ff", "y.ff", "notes.txt", "z.bld"], rng.randint(1, 3)):
+                        path = root / lib / fname
+                        blocks = [b for b in blocks_for(rng.randint(1, 2)) if b[0] not in taken] if fname.endswith(".ff") else []
+                        taken |= {b[0] for b in blocks}       # one name once per library: listing order is the OS's
+                        path.write_text(_ff_text(blocks) if blocks else "; nothing\n")
+                        defs[str(path)] = blocks
+                (root / "user").mkdir()
+                for fname in rng.sample(["u1.ff", "u2.ff", "u3.ff"], rng.randint(0, 3)):
+                    path = root / "user" / fname
+                    blocks = blocks_for(rng.randint(1, 2))
+                    path.write_text(_ff_text(blocks) if blocks else "; nothing\n")
+                    defs[str(path)] = blocks
+                    extra.append(path)
+                listing = {lib: _files_json([root / lib / f for f in os.listdir(root / lib)]) for lib in libnames}
+
+                def observe(libs, files):
+                    try:
+                        force_field = load_library.load_ff_library("verif", list(libs), list(files))
+                    except IOError:
+                        return dict(status="IOError")
+                    return dict(status="ok", winners=sorted([name, str(block.nodes[list(block.nodes)[0]]["atype"])] for name, block in force_field.blocks.items()))
+                impl = observe(libnames, extra)
+                shuffled_extra, shuffled_libs = list(extra), list(libnames)
+                rng.shuffle(shuffled_extra)
+                rng.shuffle(shuffled_libs)
+                variant = observe(shuffled_libs, shuffled_extra)
+                tag_to_path = {tag: path for path, blocks in defs.items() for _n, tag in blocks}
+                replay = dict(kind="library", stream="load_ff", libnames=libnames, extra=[p.name for p in extra],
+                              defs={pathlib.Path(k).parent.name + "/" + pathlib.Path(k).name: v for k, v in defs.items()})
+                all_names = [n for blocks in defs.values() for n, _t in blocks]
+                if len(set(all_names)) == len(all_names) and impl != variant:
+                    ctx.oracle_fail("file-order-changes-definitions", "no two input files define the same block, yet reading the "
+                                    "extra files as %s / libraries as %s instead of %s / %s changes the force field: %s vs %s"
+                                    % ([p.name for p in shuffled_extra], shuffled_libs, [p.name for p in extra], libnames,
+                                       impl, variant), replay)
+                reqs.append(dict(op="loadff", libnames=libnames, listing=listing, extra=_files_json(extra),
+                                 defs={path: [n for n, _t in blocks] for path, blocks in defs.items()}))
+                if impl["status"] == "ok":
+                    impl = dict(status="ok", winners=sorted([name, tag_to_path.get(tag, "?")] for name, tag in impl["winners"]))
+                todo.append((impl, replay, len(all_names)))
+    finally:
+        load_library.DATA_PATH = saved
+    answers = ctx.driver.ask(reqs) if reqs else []
+    for (impl, replay, ndefs), ans in zip(todo, answers):
+        model = dict(status=ans.get("status"), winners=sorted(ans.get("winners", []))) if ans.get("status") == "ok" else dict(status=ans.get("status"))
+        ctx.correspond("library:load_ff", impl, model, replay)
+        ctx.traces += 1
+        ctx.case(("library:load_ff", json.dumps(replay, sort_keys=True)) if ndefs >= 2 else None, kind="library",
+                 library_status=impl["status"])
+
+
+def run_library(ctx):
+    run_library_get_parser(ctx)
+    run_library_read_options(ctx, ctx.budget(80, 1500))
+    run_library_load_ff(ctx, ctx.budget(40, 600))
+
+
+# ------------------------------------------------------------------------------------------------ links under relabelling
+
+def _transform_link_case(rng, case):
+    """same residue graph under an injective renaming of the node keys, shuffled node insertion order, shuffled
+    and randomly reversed edges (residue ids, residue names, edge labels fixed)"""
+    import copy
+    graph = case["graph"]
+    keys = [k for k, _r, _n in graph["nodes"]]
+    style = rng.choice(["perm", "offset", "perm"])
+    if style == "perm":
+        new = list(keys)
+        rng.shuffle(new)
+        ren = dict(zip(keys, new))
+    else:
+        off = rng.choice([17, 100])
+        ren = {k: 3 * k + off for k in keys}
+    nodes = [[ren[k], r, n] for k, r, n in graph["nodes"]]
+    rng.shuffle(nodes)
+    edges = [[ren[u], ren[v], lt] if rng.random() < 0.5 else [ren[v], ren[u], lt] for u, v, lt in graph["edges"]]
+    rng.shuffle(edges)
+    variant = copy.deepcopy(case)
+    variant["graph"] = dict(graph, nodes=nodes, edges=edges)
+    if "from_itp" in graph:
+        variant["graph"]["from_itp"] = {str(ren[int(k)]): v for k, v in graph["from_itp"].items()}
+    return variant
+
+
+def run_links_relabel(ctx, count):
+    """C13 on force fields with every kind of link the C02 generator writes (orders `*`, `>`, `<`, numbers; name
+    choices; replace; edges / non-edges / patterns; dangling .itp interactions): the real MapToMolecule + ApplyLinks
+    on a residue graph and on the same graph with renamed node keys, other insertion order and reversed edges must
+    give the same atoms, edges and interactions.  Inputs whose result depends on the order in which VF2 enumerates the
+    matches of ONE link (C02: `sameLinkCollisions`) are skipped and counted."""
+    import ffgen_c02 as G
+    import c02
+    rng = ctx.rng
+    reqs, todo = [], []
+    for _ in range(count):
+        case = G.gen_case(rng, max_res=ctx.budget(6, 9))
+        variant = _transform_link_case(rng, case)
+        try:
+            inp_a, out_a, _ = c02.run_real(case)
+            inp_b, out_b, _ = c02.run_real(variant)
+        except G.Unsupported:
+            continue
+        except Exception as err:  # pylint: disable=broad-except
+            ctx.tally(links_relabel_real_code_raised=type(err).__name__)        # C02 reports a pipeline that raises
+            continue
+        reqs += [dict(op="apply", input=inp_a), dict(op="apply", input=inp_b)]
+        todo.append((case, variant, out_a, out_b))
+    answers = ctx.driver.ask(reqs) if reqs else []
+    for idx, (case, variant, out_a, out_b) in enumerate(todo):
+        ans_a, ans_b = answers[2 * idx], answers[2 * idx + 1]
+        if not ans_a.get("ok") or not ans_b.get("ok") or ans_a.get("collisions") or ans_b.get("collisions"):
+            ctx.tally(order_dependent_cases_skipped=True)
+            ctx.case(None, kind="links-relabel")
+            continue
+        replay = dict(kind="links-relabel", case=case, variant=variant)
+        if out_a != out_b:
+            diff = [k for k in ("atoms", "edges", "ixns") if out_a[k] != out_b[k]]
+            only_a = [x for x in out_a["ixns"] if x not in out_b["ixns"]][:3]
+            only_b = [x for x in out_b["ixns"] if x not in out_a["ixns"]][:3]
+            ctx.oracle_fail("relabel-changes-output", "renaming the residue-graph nodes / other insertion order / reversed edges "
+                            "changes the molecule after link application (%s differ): only before %s, only after %s | graph %s -> %s"
+                            % (", ".join(diff), only_a, only_b, case["graph"], variant["graph"]), replay)
+        nevents = ans_a.get("nevents", 0)
+        ctx.case(("links-relabel", json.dumps(replay, sort_keys=True)) if nevents >= 1 else None, kind="links-relabel",
+                 accepted=("0" if nevents == 0 else "1-3" if nevents <= 3 else "4+"))
+
+
 def source_anchor(ctx):
     """`C13_history` models gen_params as loading a FRESH force field on every call: check the anchor in the
     current source (gen_itp.py: `force_field = load_ff_library(name, lib, inpath)` with no force-field argument,
@@ -467,6 +741,9 @@ def run(ctx):
         "the C01 model (Model/MapToMol.lean) is tied to the code by C01's correspondence; here it is re-run on every "
         "transformed input (streams model-vs-code:*)",
         "link matching is not modelled: the recorded link operations of each run are fed to the model",
+        "load_library model (Model/LoadLibrary.lean): pathlib.Path.suffix and os.listdir are parameters (the harness passes "
+        "what the same calls return); what a parser does with the lines of a file is not part of it (stand-in parsers in "
+        "library:read_options, the real parsers in library:load_ff)",
     ]
     ctx.assumptions += [
         "residue ids are fixed by the input (the statement: 'residue ids fixed'); pairwise distinct, contiguous",
@@ -476,6 +753,8 @@ def run(ctx):
         "generated only when listed in known_findings.txt or VERIF_C01_FINDINGS",
     ]
     source_anchor(ctx)
+    run_library(ctx)
+    run_links_relabel(ctx, ctx.budget(150, 2500))
     rng = ctx.rng
     findings = sorted(set(c01.enabled_findings("C13")) | set(c01.enabled_findings("C01")))
     findings = [f for f in findings if f in C13_FINDINGS]
@@ -540,6 +819,15 @@ def replay(ctx, data):
     else:
         inputs = [data.get("input") or data]
     pending = []
+    for inp in [i for i in inputs if i.get("kind") == "links-relabel"]:
+        import c02
+        out_a, out_b = c02.run_real(inp["case"])[1], c02.run_real(inp["variant"])[1]
+        if out_a != out_b:
+            ctx.oracle_fail("relabel-changes-output", "replayed: the molecule differs under relabelling", inp)
+    inputs = [inp for inp in inputs if inp.get("kind") != "links-relabel"]
+    if any(inp.get("kind") == "library" for inp in inputs):
+        run_library(ctx)        # the library streams are cheap and deterministic per seed: re-run them whole
+        inputs = [inp for inp in inputs if inp.get("kind") != "library"]
     for inp in inputs:
         case = c01.case_from_replay(inp["case"])
         record = dict(case=case, kind=inp["kind"], replay=inp, checks=[], label=inp["kind"] + ":replayed")
